@@ -569,13 +569,16 @@ func C08(c *core.Ctx) {
 		}
 	}
 	// RIB: route removal prunes
-	for _, m := range []string{"RemoveRouteEnc", "CleanUpFace"} {
-		recv := "RibTable"
-		if m == "CleanUpFace" {
-			recv = "RibEntry"
-		}
-		fn := c.Fn("R8.5", "fw/table", recv, m)
-		if fn == nil {
+	for _, m := range []string{"RemoveRouteEnc", "<face-cleanup>"} {
+		var fn *ssa.Function
+		if m == "<face-cleanup>" {
+			fn = ribCleanupWorker(p)
+			if fn == nil {
+				c.Und("R8.5", "anchor:rib-cleanup-worker", "-", "RIB face-cleanup function not found")
+				continue
+			}
+			m = fn.Name()
+		} else if fn = c.Fn("R8.5", "fw/table", "RibTable", m); fn == nil {
 			continue
 		}
 		n := 0
@@ -591,7 +594,7 @@ func C08(c *core.Ctx) {
 			}, nil)
 			c.Decide(fr.OK, "R8.5", "rib-removal-prunes:"+m, c.Pos(in), "route removal is followed by pruneIfEmpty", "a RIB route is removed without pruning the entry")
 		})
-		c.Floor("R8.5", "route-removal stores in "+m, n, 1)
+		c.Floor("R8.5", "route-removal stores in RIB removal function "+m, n, 1)
 	}
 	_ = types.Typ
 }
